@@ -45,7 +45,8 @@ def finalize(agg, tier):
     out = []
     need = ["cells:RSA", "cells:DSA", "lib_roundtrips", "model_parses", "der_layers_strict", "wrong_passphrase_refused", "key_observations",
             "model_blobs_imported", "equality_pairs", "openssh_private_imported", "protected_cells", "legacy_pem_cells",
-            "keys_with_leading_zero_or_high_bit"]
+            "keys_with_leading_zero_or_high_bit", "rsa_keys_with_whitespace_tail", "dsa_keys_with_whitespace_tail",
+            "ecc_keys_with_whitespace_tail", "ecc_public_keys_with_special_x", "ecc_public_keys_with_x_0"]
     need += ["cells:ECC:" + cv for cv in CURVES]
     for n in need:
         if not c.get(n):
@@ -358,11 +359,45 @@ def special_rsa_keys(ctx, rng, count=2):
     return out
 
 
+WS_TAILS = [b"\r\n", b"\n", b" ", b"\t", b"\r", b"\n\n", b" \n", b"\x00", b"\x00\x00"]
+
+
+def ws_tail_rsa_key(ctx, r, bits=1024):
+    """An RSA key whose binary encodings END in octets that text handling likes to strip: the CRT coefficient q^-1 mod p
+    (last INTEGER of RSAPrivateKey, hence last octets of the PKCS#1 and of the clear PKCS#8 encoding) ends in CR LF, LF,
+    a blank ...; the public exponent (last INTEGER of the public encodings) is 13 = CR, 9 = TAB or 0x0A0D."""
+    import math
+    from Crypto.PublicKey import RSA
+    from ref import primes
+    tail = r.choice(WS_TAILS)
+    e = r.choice([13, 9, 0x0A0D, 65537])
+    half = bits // 2
+    tl = 8 * len(tail)
+    for _ in range(6):
+        p = primes.gen_prime(half, r, lambda c: math.gcd(c - 1, e) == 1)
+        for _try in range(6000):
+            u = (r.getrandbits(half - tl - 2) << tl) | int.from_bytes(tail, "big")
+            if u < 2 or u >= p:
+                continue
+            q = pow(u, -1, p)
+            if q.bit_length() != half or q % 2 == 0 or math.gcd(q - 1, e) != 1 or not primes.is_prime_bpsw(q):
+                continue
+            d = pow(e, -1, math.lcm(p - 1, q - 1))
+            key = RSA.construct((p * q, e, d, p, q))
+            ctx.count("rsa_keys_with_whitespace_tail")
+            return key, "rsa%d/e%d/ws%s" % (bits, e, tail.hex())
+    return None
+
+
 def w_rsa(spec, ctx, kf, der):
     from Crypto.PublicKey import RSA
+    import random as _random
     rng = ctx.rng
     idx, n = spec["idx"], spec["n"]
     keys = special_rsa_keys(ctx, rng, 2)
+    wk = ws_tail_rsa_key(ctx, _random.Random(rng.getrandbits(64)))
+    if wk:
+        keys.insert(0, wk)
     cell = None
     round_ = 0
     prots = PROTECTIONS[idx::n]
@@ -394,6 +429,9 @@ def w_rsa(spec, ctx, kf, der):
         round_ += 1
         if round_ % 2 == 0:
             keys = special_rsa_keys(ctx, rng, 2)
+            wk = ws_tail_rsa_key(ctx, _random.Random(rng.getrandbits(64)))
+            if wk:
+                keys.insert(round_ % 3, wk)
 
 
 def w_dsa(spec, ctx, kf, der):
@@ -432,6 +470,22 @@ def w_dsa(spec, ctx, kf, der):
                                   (ks.public_key(), {"format": "PEM"}, ()), (ks, {"format": "DER"}, ()), (ks, {"format": "PEM", "pkcs8": False}, ()),
                                   (ks, {"format": "OpenSSH"}, ("x", "private"))):
                 cell.judge(kk_, kw_, ignore=ig_)
+        # private value (the last octets of both private encodings) / public value (the last octets of the public ones)
+        # ending in octets that text handling likes to strip
+        for tail in rng.sample(WS_TAILS, 3):
+            x_ = ((rng.getrandbits(q.bit_length() - 8 * len(tail) - 2) << (8 * len(tail))) | int.from_bytes(tail, "big")) or 1
+            ks = DSA.construct((pow(g, x_, p), g, p, q, x_))
+            ctx.count("dsa_keys_with_whitespace_tail")
+            for kw_ in ({"format": "DER"}, {"format": "DER", "pkcs8": False}, {"format": "PEM"}, {"format": "PEM", "pkcs8": False}):
+                cell.judge(ks, kw_)
+        for x_ in range(2, 3000):
+            if pow(g, x_, p) & 0xFF in (0x0A, 0x0D, 0x20, 0x09):
+                ks = DSA.construct((pow(g, x_, p), g, p, q, x_)).public_key()
+                ctx.count("dsa_keys_with_whitespace_tail")
+                for kw_ in ({"format": "DER"}, {"format": "PEM"}, {"format": "OpenSSH"}):
+                    cell.judge(ks, kw_)
+                if rng.random() < 0.7:
+                    break
         pub = key.public_key()
         for fmt in ("PEM", "DER", "OpenSSH"):
             cell.judge(pub, {"format": fmt})
@@ -486,6 +540,25 @@ def w_ecc(spec, ctx, kf, der):
         if not ws and round_ % 3 == 1:
             seedlen = {"Ed25519": 32, "Ed448": 57, "Curve25519": 32, "Curve448": 56}[curve]
             key = ECC.construct(curve=curve, seed=rng.choice([bytes(seedlen), b"\xff" * seedlen, rng.randbytes(seedlen)]))
+        if ws and round_ % 4 == 3:
+            # public keys that nobody has a private key for: the points with x = 0 (where the curve has them) and the smallest x
+            from .aux_c05_con import small_x_point
+            from ref import ec as _ec
+            z0 = _ec.w_lift_x(c, 0, rng.getrandbits(1))
+            P = z0 if (z0 is not None and rng.random() < 0.7) else small_x_point(c)
+            if rng.random() < 0.5:
+                P = (P[0], c.p - P[1])
+            key = ECC.construct(curve=curve, point_x=P[0], point_y=P[1])
+            ctx.count("ecc_public_keys_with_special_x")
+            if P[0] == 0:
+                ctx.count("ecc_public_keys_with_x_0")
+        elif ws and round_ % 4 == 1:
+            # last octet of the public point (= of every uncompressed encoding, public or private) is CR, LF, blank, TAB, NUL
+            for _ in range(300):
+                if int(key.pointQ.y) & 0xFF in (0x0A, 0x0D, 0x20, 0x09, 0x00):
+                    ctx.count("ecc_keys_with_whitespace_tail")
+                    break
+                key = ECC.generate(curve=curve)
         cell = Cell(ctx, kf, der, ECC, "ECC[%s]" % curve)
         pub = key.public_key()
         for compress in (False, True):
@@ -502,6 +575,9 @@ def w_ecc(spec, ctx, kf, der):
                        import_kwargs={"curve_name": curve})
             cell.judge(pub, {"format": "OpenSSH", "compress": compress}, expect_error=(c.ssh_type is None), compressed=compress)
         cell.judge(pub, {"format": "PEM", "passphrase": b"pw"}, expect_error=True)
+        if not key.has_private():
+            round_ += 1
+            continue
         for fmt in ("SEC1", "raw", "OpenSSH"):
             cell.judge(key, {"format": fmt}, expect_error=True)
         for fmt in ("PEM", "DER"):
